@@ -125,3 +125,46 @@ Proof.
   - destruct (Nat.ltb_spec max d); [lia|]. apply IH. lia.
   - apply IH. lia.
 Qed.
+
+(* ------------------------------------------------------------------ the member loop terminates *)
+Section MemberLoopProof.
+  Variables eof close_brace : N.
+  Variables ret cret : list N.
+  Variable toks : list N.
+  Variable parse_member : nat -> bool * nat.
+  Hypothesis Heof : mem eof ret = true.
+  Hypothesis Hend : ends_with eof toks.
+  Hypothesis Hneq : close_brace <> eof.
+  (** what is asked of the member parser: it stays in range, never moves back, and moves forward when it succeeds *)
+  Hypothesis Hpm : forall c, c < length toks -> c <= snd (parse_member c) < length toks /\ (fst (parse_member c) = true -> c < snd (parse_member c)).
+
+  Lemma member_loop_terminates : forall fuel cur, cur < length toks -> 2 * (length toks - cur) < fuel ->
+    exists r, member_loop true eof close_brace ret cret toks parse_member fuel cur = Some r.
+  Proof.
+    induction fuel as [|f IH]; intros cur Hc Hf; [lia|]. cbn [member_loop].
+    destruct (nth_error toks cur) as [k|] eqn:E; [|apply nth_error_None in E; lia].
+    destruct (N.eqb_spec k close_brace) as [->|Hk]; [eauto|].
+    destruct (parse_member cur) as [ok c1] eqn:Ep. destruct (Hpm cur Hc) as [Hr Hs]. rewrite Ep in Hr, Hs. cbn [fst snd] in Hr, Hs.
+    destruct ok.
+    - apply IH; [lia|]. specialize (Hs eq_refl). lia.
+    - destruct (ignore_loop_safe eof ret cret toks Heof Hend (S (length toks)) c1) as [c2 [E2 [Hr2 _]]]; [lia|lia|]. rewrite E2.
+      destruct (nth_error toks c2) as [k2|] eqn:Ek2; [|apply nth_error_None in Ek2; lia].
+      destruct (N.eqb_spec k2 eof) as [->|Hne]; [eauto|].
+      assert (Hlast : c2 <> length toks - 1). { destruct Hend as [Hl _]. intros ->. rewrite Hl in Ek2. congruence. }
+      destruct (Nat.eqb_spec c2 cur) as [->|Hmove]; cbn [andb].
+      + (* neither the member nor the recovery moved: here the token is not the closing brace, so the guard skips it *)
+        rewrite E in Ek2. inversion Ek2; subst k2. destruct (N.eqb_spec k close_brace) as [|_]; [contradiction|]. cbn [negb].
+        apply IH; lia.
+      + apply IH; lia.
+  Qed.
+End MemberLoopProof.
+
+(** without the guard: a member parser that fails without moving, at a token where recovery stops, never lets the loop end *)
+Lemma member_loop_unguarded_diverges :
+  exists eof close_brace ret cret toks pm, mem eof ret = true /\ ends_with eof toks /\
+    forall fuel, member_loop false eof close_brace ret cret toks pm fuel 1 = None.
+Proof.
+  exists 0%N, 9%N, [0%N; 7%N], [], [0%N; 7%N; 0%N], (fun c => (false, c)).
+  split; [reflexivity|]. split; [split; [reflexivity|cbn; lia]|].
+  induction fuel as [|f IH]; [reflexivity|]. cbn. cbn in IH. exact IH.
+Qed.
